@@ -167,47 +167,45 @@ __CPROVER_ensures(__CPROVER_return_value <= 0)
 
 /* ---- chunk lists ---------------------------------------------------------- */
 
-/* Ghost description of a chunk list's designated payload (set up by the
- * harness, described by LP_CHUNKS_OK in `requires`): g_lp_sum[i] is the number
- * of unread octets in the chunks active .. i-1 (prefix sums), g_lp_total their
- * total.  The designated payload is the concatenation of the unread parts from
- * `active` on; octet t of it lies in the chunk c with g_lp_sum[c] <= t <
- * g_lp_sum[c+1], at data[offset + t - g_lp_sum[c]].  g_lp_t is the one
- * observed payload index (arbitrary, hence every index), g_lp_v the payload's
- * octet there ("ghost value instead of ghost array").  Lists of at most
- * LP_CMAX chunks (bound of the expanded conjunction; the loop proofs
- * themselves are inductive). */
+/* Ghost prefix sums of the unread counts (set up by the harness, described by
+ * LP_SUMS_OK in `requires`): g_lp_sum[i] is the number of unread octets in the
+ * chunks active .. i-1.  The designated payload of a chunk list is the
+ * concatenation of the unread parts from `active` on; octet t of it lies in
+ * the chunk c with g_lp_sum[c] <= t < g_lp_sum[c+1], at data[offset + t -
+ * g_lp_sum[c]].  g_lp_c is the one observed chunk (arbitrary, hence every
+ * chunk).  Lists of at most LP_CMAX chunks (bound of the expanded quantifier;
+ * the loop proofs themselves are inductive). */
 #ifndef LP_CMAX
 #define LP_CMAX 4
 #endif
 extern size_t g_lp_sum[9]; /* LP_CMAX + 1 <= 9 slots in use */
-extern size_t g_lp_total, g_lp_t;
-extern unsigned char g_lp_v;
+extern size_t g_lp_c;
 
 #define LP_CH(oc, i) ((oc)->chunk[LP_CL((i), (oc)->chunks)])
 #define LP_CH_REST(oc, i) (LP_CH(oc, i).used - LP_CH(oc, i).offset)
 /* chunk i, if it is one of the list's unread chunks, is a well-formed buffer
  * (offset <= used <= size, readable memory that is not part of the ghost
- * state); the ghost sums add up without wrapping (the designated octets
- * number fewer than 2^64; "every partial sum is at most the total" follows and
- * is spelt out for the solver); if the observed payload index falls into this
- * chunk, g_lp_v is the octet there */
+ * state), and the ghost sums add up without wrapping (the designated octets
+ * number fewer than 2^64); the last conjunct, every partial sum is at most the
+ * total, follows from the others and is spelt out for the solver */
 #define LP_CHUNK_OK(oc, i) \
   IMPLIES((oc)->active <= (size_t)(i) && (size_t)(i) < (oc)->chunks, \
     BB_WF(&LP_CH(oc, i)) && __CPROVER_r_ok(LP_CH(oc, i).data, LP_CH(oc, i).size) && LP_SEP(LP_CH(oc, i).data) \
     && g_lp_sum[(i) + 1] == g_lp_sum[i] + LP_CH_REST(oc, i) && g_lp_sum[(i) + 1] >= g_lp_sum[i] \
-    && g_lp_sum[(i) + 1] <= g_lp_total \
-    && IMPLIES(g_lp_sum[i] <= g_lp_t && g_lp_t < g_lp_sum[(i) + 1], \
-         LP_CH(oc, i).data[LP_CH(oc, i).offset + (g_lp_t - g_lp_sum[i])] == g_lp_v))
+    && g_lp_sum[(i) + 1] <= LP_TOTAL(oc))
 #define LP_CHUNKS_OK(oc) \
   (__CPROVER_r_ok((oc), sizeof(ByteChunks)) && (oc)->chunks <= LP_CMAX && (oc)->active <= (oc)->chunks \
    && IMPLIES((oc)->chunks > 0u, __CPROVER_r_ok((oc)->chunk, (oc)->chunks * sizeof(ByteBuffer))) \
    && LP_SEP(oc) && IMPLIES((oc)->chunks > 0u, LP_SEP((oc)->chunk)) \
    && g_lp_sum[LP_CL((oc)->active, LP_CMAX + 1)] == 0u \
-   && g_lp_total == g_lp_sum[LP_CL((oc)->chunks, LP_CMAX + 1)] \
    && LP_CHUNKS_EACH(oc))
 /* total number of designated octets */
-#define LP_TOTAL(oc) (g_lp_total)
+#define LP_TOTAL(oc) (g_lp_sum[LP_CL((oc)->chunks, LP_CMAX + 1)])
+/* payload octet t (t < total) of the list, seen through the observed chunk */
+#define LP_IN_CHUNK(oc, c, t) ((oc)->active <= (c) && (c) < (oc)->chunks \
+   && g_lp_sum[LP_CL((c), LP_CMAX)] <= (t) && (t) < g_lp_sum[LP_CL((c), LP_CMAX) + 1])
+#define LP_CHUNK_OCTET(oc, c, t) \
+  (LP_CH(oc, c).data[LP_CH(oc, c).offset + ((t) - g_lp_sum[LP_CL((c), LP_CMAX)])])
 
 #if LP_CMAX == 2
 #define LP_CHUNKS_EACH(oc) (LP_CHUNK_OK(oc, 0) && LP_CHUNK_OK(oc, 1))
@@ -226,8 +224,7 @@ extern unsigned char g_lp_v;
 #endif
 
 /* p is not (part of) the ghost state of this unit or of the endpoint stubs */
-#define LP_SEP(p) (EP_SEP(p) && !__CPROVER_same_object((p), g_lp_sum) && !__CPROVER_same_object((p), &g_lp_total) \
-   && !__CPROVER_same_object((p), &g_lp_t) && !__CPROVER_same_object((p), &g_lp_v) \
+#define LP_SEP(p) (EP_SEP(p) && !__CPROVER_same_object((p), g_lp_sum) && !__CPROVER_same_object((p), &g_lp_c) \
    && !__CPROVER_same_object((p), &g_k) && !__CPROVER_same_object((p), &g_j))
 
 #define LP_LPC_OK(lpc) (__CPROVER_rw_ok((lpc), sizeof(LengthPrefixChunks)))
@@ -236,8 +233,8 @@ extern unsigned char g_lp_v;
 int flenp_chunks_use(const LengthPrefixKind k, LengthPrefixChunks *lpc)
 __CPROVER_requires(LP_KIND_OK(k) && LP_STATIC_OK() && LP_LPC_OK(lpc) && LP_CHUNKS_OK(&lpc->payload))
 __CPROVER_requires(IMPLIES(lpc->payload.chunks > 0u, !__CPROVER_same_object(lpc->payload.chunk, lpc)))
-__CPROVER_assigns(LP_FITS(k, g_lp_total): __CPROVER_object_upto(lpc->prefix_, LP_PREFIX_ROOM);
-    LP_FITS(k, g_lp_total): lpc->prefix.data, lpc->prefix.size, lpc->prefix.used, lpc->prefix.offset)
+__CPROVER_assigns(LP_FITS(k, g_lp_sum[lpc->payload.chunks]): __CPROVER_object_upto(lpc->prefix_, LP_PREFIX_ROOM);
+    LP_FITS(k, g_lp_sum[lpc->payload.chunks]): lpc->prefix.data, lpc->prefix.size, lpc->prefix.used, lpc->prefix.offset)
 __CPROVER_ensures(IMPLIES(!LP_FITS(k, LP_TOTAL(&lpc->payload)),
     __CPROVER_return_value == -EINVAL && LP_BUF_SAME(&lpc->prefix)
     && lpc->prefix_[LP_CL(g_j, LP_PREFIX_ROOM)] == __CPROVER_old(lpc->prefix_[LP_CL(g_j, LP_PREFIX_ROOM)])))
@@ -338,25 +335,48 @@ __CPROVER_ensures(IMPLIES(n <= LP_REST_O(b) && LP_FITS_TOTAL(k, n) && n >= 1u,
 #define LP_SNK_CHUNKS_PREFIX(k, oc) \
   IMPLIES(LP_B_SEEN && LP_B_REL < lp_spec_len((k), LP_TOTAL(oc)), \
         g_snk_val == lp_spec_octet((k), LP_TOTAL(oc), LP_B_REL))
-/* ... or the payload's: at the observed payload index it is the observed octet */
+/* ... or the payload's, seen through the observed chunk */
 #define LP_SNK_CHUNKS_PAYLOAD(k, oc) \
-  IMPLIES(LP_B_IN_PAYLOAD(k, LP_TOTAL(oc)) && LP_B_PAY(k, LP_TOTAL(oc)) == g_lp_t, g_snk_val == g_lp_v)
+  IMPLIES(LP_B_IN_PAYLOAD(k, LP_TOTAL(oc)) && LP_IN_CHUNK(oc, g_lp_c, LP_B_PAY(k, LP_TOTAL(oc))), \
+        g_snk_val == LP_CHUNK_OCTET(oc, g_lp_c, LP_B_PAY(k, LP_TOTAL(oc))))
+
+/* The proof of this contract is split over three targets (LP_PART 1..3), each
+ * enforcing a part of the ensures clauses (and all of the frame / safety
+ * obligations); without LP_PART -- wherever the contract is used by
+ * replacement -- it is the whole contract. */
+#if !defined(LP_PART) || LP_PART == 1
+#define LP_ENSURES_COUNT(x) __CPROVER_ensures(x)
+#else
+#define LP_ENSURES_COUNT(x)
+#endif
+#if !defined(LP_PART) || LP_PART == 2
+#define LP_ENSURES_PREFIX(x) __CPROVER_ensures(x)
+#else
+#define LP_ENSURES_PREFIX(x)
+#endif
+#if !defined(LP_PART) || LP_PART == 3
+#define LP_ENSURES_PAYLOAD(x) __CPROVER_ensures(x)
+#else
+#define LP_ENSURES_PAYLOAD(x)
+#endif
+#define LP_CHUNKS_FRAMED(k, oc) (LP_FITS_TOTAL(k, LP_TOTAL(oc)) && LP_TOTAL(oc) >= 1u)
 
 ssize_t flenp_chunks_to_sink(const LengthPrefixKind k, Sink *sink, ByteChunks *oc)
 __CPROVER_requires(LP_KIND_OK(k) && LP_STATIC_OK() && EP_SINK_OK(sink) && LP_CHUNKS_OK(oc))
 __CPROVER_assigns(LP_SNK_ASSIGNS)
-__CPROVER_ensures(IMPLIES(!LP_FITS_TOTAL(k, LP_TOTAL(oc)), __CPROVER_return_value == -EINVAL && LP_SNK_UNTOUCHED))
-__CPROVER_ensures(IMPLIES(LP_FITS_TOTAL(k, LP_TOTAL(oc)) && LP_TOTAL(oc) >= 1u, __CPROVER_return_value != 0))
-__CPROVER_ensures(IMPLIES(LP_FITS_TOTAL(k, LP_TOTAL(oc)) && LP_TOTAL(oc) >= 1u,
-    LP_SNK_WITHIN(k, LP_TOTAL(oc))))
-__CPROVER_ensures(IMPLIES(LP_FITS_TOTAL(k, LP_TOTAL(oc)) && LP_TOTAL(oc) >= 1u, LP_SNK_CHUNKS_PREFIX(k, oc)))
-__CPROVER_ensures(IMPLIES(LP_FITS_TOTAL(k, LP_TOTAL(oc)) && LP_TOTAL(oc) >= 1u, LP_SNK_CHUNKS_PAYLOAD(k, oc)))
-__CPROVER_ensures(IMPLIES(LP_FITS_TOTAL(k, LP_TOTAL(oc)) && LP_TOTAL(oc) >= 1u,
-    IMPLIES(!LP_B_SEEN, g_snk_val == __CPROVER_old(g_snk_val))))
-__CPROVER_ensures(IMPLIES(LP_FITS_TOTAL(k, LP_TOTAL(oc)) && LP_TOTAL(oc) >= 1u && __CPROVER_return_value > 0,
+/* refusal, counts, result */
+LP_ENSURES_COUNT(IMPLIES(!LP_FITS_TOTAL(k, LP_TOTAL(oc)), __CPROVER_return_value == -EINVAL && LP_SNK_UNTOUCHED))
+LP_ENSURES_COUNT(IMPLIES(LP_CHUNKS_FRAMED(k, oc), __CPROVER_return_value != 0))
+LP_ENSURES_COUNT(IMPLIES(LP_CHUNKS_FRAMED(k, oc), LP_SNK_WITHIN(k, LP_TOTAL(oc))))
+LP_ENSURES_COUNT(IMPLIES(LP_CHUNKS_FRAMED(k, oc) && __CPROVER_return_value > 0,
     LP_SNK_DONE(k, LP_TOTAL(oc), __CPROVER_return_value)))
-__CPROVER_ensures(IMPLIES(LP_FITS_TOTAL(k, LP_TOTAL(oc)) && LP_TOTAL(oc) >= 1u && __CPROVER_return_value < 0,
+LP_ENSURES_COUNT(IMPLIES(LP_CHUNKS_FRAMED(k, oc) && __CPROVER_return_value < 0,
     LP_SNK_BROKE(k, LP_TOTAL(oc), __CPROVER_return_value)))
+/* what the sink received: the prefix, nothing outside the frame */
+LP_ENSURES_PREFIX(IMPLIES(LP_CHUNKS_FRAMED(k, oc), LP_SNK_CHUNKS_PREFIX(k, oc)))
+LP_ENSURES_PREFIX(IMPLIES(LP_CHUNKS_FRAMED(k, oc), IMPLIES(!LP_B_SEEN, g_snk_val == __CPROVER_old(g_snk_val))))
+/* ... and the designated payload octets */
+LP_ENSURES_PAYLOAD(IMPLIES(LP_CHUNKS_FRAMED(k, oc), LP_SNK_CHUNKS_PAYLOAD(k, oc)))
 ;
 
 /* ---- decoders --------------------------------------------------------------- */
